@@ -93,6 +93,12 @@ func checkRoundTrip(c Case) error {
 	case "dstlink":
 		os.Symlink("dst", filepath.Join(r, "dl"))
 		spelled = filepath.Join(r, "dl")
+	case "doubleslash":
+		spelled = r + "//dst"
+	case "dot":
+		spelled = r + "/./dst/."
+	case "updown":
+		spelled = r + "/dst/../dst"
 	}
 	uerr, panicked := pk.Unpack(pk.Opts{}, vars, data, spelled)
 	if panicked != nil {
@@ -214,7 +220,7 @@ func genCase(unpriv bool) func(t *rapid.T) Case {
 		c := Case{Tree: tgen.Gen(t, cfg)}
 		c.Opts.Deref = rapid.Bool().Draw(t, "deref")
 		c.Opts.Ignore = rapid.Bool().Draw(t, "ignore")
-		c.DstVia = rapid.SampledFrom([]string{"", "", "", "", "parentlink", "dstlink"}).Draw(t, "dstvia")
+		c.DstVia = rapid.SampledFrom([]string{"", "", "", "", "parentlink", "dstlink", "doubleslash", "dot", "updown"}).Draw(t, "dstvia")
 		c.SrcViaLink = rapid.IntRange(0, 4).Draw(t, "srcvialink") == 0
 		return c
 	}
